@@ -91,6 +91,15 @@ def check(ctx):
                 else:
                     for v in (["plain", "vecbuf", "iov", "vec"] if n < 1000 else [rng.choice(["plain", "vecbuf"]), rng.choice(["iov", "vec"])]):
                         lines.append("Enc %s %s" % (v, partitions(rng, p, False)[0] if v in ("iov", "vec") else gc.fmt(p)))
+    # payloads ending in a control byte whose CRC-8 is a control byte too (all 81 pairs of NUL BS TAB LF CR ESC SP DEL FF)
+    for name in gc.NAMES:
+        lines.append("R %s 8" % name)
+        for p in gc.control_tail_payloads(rng):
+            if name == "legacy":
+                lines.append("Enc plain %s" % gc.fmt(p))
+            else:
+                v = rng.choice(["plain", "vecbuf", "iov", "vec"])
+                lines.append("Enc %s %s" % (v, partitions(rng, p, False)[0] if v in ("iov", "vec") else gc.fmt(p)))
     # worst-case contents (every byte a marker / escape byte: the frame reaches 2n+4) at lengths around the powers of two up to 4096
     # (and up to 65536 in the thorough tier) - where a fixed-size staging buffer or a doubled size computation would give way
     for name in gc.NAMES:
